@@ -170,6 +170,7 @@ class Ev:
         self.terms = terms
         self.node = node
         self.func = func
+        self.nconds = 0
 
     def __repr__(self):
         return "%s %s(%s)" % (self.kind, self.name, ", ".join(show(t) for t in self.terms))
@@ -205,6 +206,10 @@ class Run:
         self.steps = 0
 
     # ---------------------------------------------------------------- decisions
+    def emit(self, ev):
+        ev.nconds = len(self.conds)      # the conditions decided before the event (a later test says nothing about it)
+        self.events.append(ev)
+
     def decide(self, term, node=None):
         for (t, v) in self.conds:
             if t == term:
@@ -612,7 +617,7 @@ class Run:
             name = n["callee"]      # members of class templates: the instantiation is part of the function symbol
         ts = self.args_terms(args, fr)
         if n.get("noret"):
-            self.events.append(Ev("call", name, ts, n, fr.func))
+            self.emit(Ev("call", name, ts, n, fr.func))
             self.status = "abort"
             return ("a", "noreturn")
         if name in ("move", "forward", "as_const") and len(ts) == 1 and (n.get("callee") or "").startswith("std::"):
@@ -620,7 +625,7 @@ class Run:
         fn = self.X.callee(n)
         if fn is not None and self.X.may_inline(fn, n) and self.depth < MAX_DEPTH:
             return self.inline(fn, n, args, ts, fr, this=None)
-        self.events.append(Ev("call", name, ts, n, fr.func))
+        self.emit(Ev("call", name, ts, n, fr.func))
         if name in self.X.stream_calls and len(args) >= 2:
             # Serialize(s, x) is s << x; WriteCompactSize(s, n) is a stream mutation of its own kind
             lv = self.lvalue(args[0], fr)
@@ -664,7 +669,7 @@ class Run:
             if isinstance(ot, tuple) and ot[0] == "ap" and ot[1].startswith("obj:") and len(ot) == 3:
                 this = ot[2]
             return self.inline(fn, n, args, ts, fr, this=this)
-        self.events.append(Ev("mcall", name, [ot] + ts, n, fr.func))
+        self.emit(Ev("mcall", name, [ot] + ts, n, fr.func))
         self.havoc_outargs(n, args, ts, fr, name)
         if n.get("mconst") is False and lv is not None and not self.X.pure_method(n):
             self._save(lv, ("ap", "mut:" + name, ot) + tuple(ts))
@@ -687,7 +692,7 @@ class Run:
             lv = self.lvalue(args[0], fr)
             base = self._load(lv)
             t = self.ev(args[1], fr) if op == "<<" else self.locterm(args[1], fr)
-            self.events.append(Ev("op", op, [base, t], n, fr.func))
+            self.emit(Ev("op", op, [base, t], n, fr.func))
             new = ("ap", "mut:" + op, base, t, ("s", ctype(args[1])))
             self._slv = lv
             if lv[0] != "tmp":
@@ -725,7 +730,7 @@ class Run:
                 self.element_write(args[0], v, fr)
             return v
         if op == "()":
-            self.events.append(Ev("call", "()", ts, n, fr.func))
+            self.emit(Ev("call", "()", ts, n, fr.func))
         return ("ap", "op" + op,) + tuple(ts)
 
     def element_write(self, target, v, fr):
@@ -1041,7 +1046,7 @@ class Run:
             ev = Ev("loop", "loop", [key], s, fr.func)
             ev.body = body_events
             ev.writes = {}
-            self.events.append(ev)
+            self.emit(ev)
             for j, c_ in enumerate(changed_cells):
                 new = self.store.get(c_)
                 ev.writes[c_] = new
